@@ -44,6 +44,11 @@ def c12(prop, tier):
     if not res.get('inconclusive') and not res.get('crashed'):
         ck.traces_validated += res.get('behaviours', 0)
     log('  wire: %d behaviours, %d steps, %d violations' % (res.get('behaviours', 0), res.get('steps', 0), len(res['violations'])))
+    # raw stream frames through the real libp2p direct channel (truncated, oversize, overflowing length prefixes)
+    finp = {'property': prop, 'seed': SEED, 'behaviours': [], 'frames_only': True, 'names': 0}
+    fres = vlib.run_vh('transport', finp, tag='C12-frames', timeout=600)
+    ck.add_harness(fres, lambda v: {'command': 'transport', 'input': finp, 'violation': v}, 'frame cases')
+    log('  frames: %d cases, %d violations' % (fres.get('steps', 0), len(fres['violations'])))
     return ck.finish()
 
 
